@@ -7,7 +7,7 @@ namespace YashModel.Redir
 open YashModel.Generated.RedirConsts
 
 theorem noclobber_redirection_concrete' (w : World) (t : FdTable) (fd : Fd) (path : Nat) (s : SavedFd)
-    (hn : w.noclobber = true) (hp : path ≠ pathEnotdir) (hlen : path < w.files.length)
+    (hn : w.noclobber = true) (hp : path ≠ pathEnotdir) (hp2 : path ≠ pathSlash) (hlen : path < w.files.length)
     (h : (perform worldOracle w t ⟨fd, .file .fileOut path⟩).r = .ok s) :
     (perform worldOracle w t ⟨fd, .file .fileOut path⟩).t.get fd = some ⟨w.ofds.length, false⟩ ∧
     ofdAt (perform worldOracle w t ⟨fd, .file .fileOut path⟩).w w.ofds.length = ⟨path, false, true, false, 0⟩ ∧
@@ -24,7 +24,7 @@ theorem noclobber_redirection_concrete' (w : World) (t : FdTable) (fd : Fd) (pat
         ((perform worldOracle w t ⟨fd, .file .fileOut path⟩).w, .ok ofd) := hres
     obtain ⟨hofd, hnew⟩ := World.resolve_ok _ _ _ ofd hres'
     rw [hofds] at hofd hnew
-    obtain ⟨c1, _, c3, _⟩ := resolve_posix (World.deny w').1 path flagsExcl hp (by rw [hfiles]; exact hlen)
+    obtain ⟨c1, _, c3, _⟩ := resolve_posix (World.deny w').1 path flagsExcl hp hp2 (by rw [hfiles]; exact hlen)
     rw [hf] at c1 c3
     have hmiss : (fileAt w path).present = false := by
       cases hpr : (fileAt w path).present with
